@@ -26,7 +26,7 @@ Forward == {"pa", "pa2", "dv"}
 
 \* judgement of ONE recorded outcome o of route rt against reference ref and operational prediction op
 JudgeOne(e, p, v, rt, ref, sup, op, o, sv) ==
-  LET P   == IF rt \in Forward THEN "C03" ELSE IF rt = "pe" THEN "C06" ELSE "C04"
+  LET P   == IF rt \in Forward THEN "C03" ELSE IF rt \in {"pe", "dae"} THEN "C06" ELSE "C04"
       c17 == IF o.k \in {"PyError", "bad"} THEN <<Tag("V:C17.foreign_" \o o.t, rt)>> ELSE <<>>
       c14 == IF sup /\ o.k = "CoordinateMissing" THEN <<Tag("V:C14.missing_raised", rt)>> ELSE <<>>
       val == IF sup /\ ref.k = "q" THEN
@@ -75,6 +75,10 @@ JudgePV(c, e, h, root, p, x, outs, sv, dvout) ==
      \o JudgeOne(e, p, x, "da", ref, sup, oda, outs.da, sv)
      \* EARLY long-lived Partial (symbolic path): judged against the reference only (C07 raise-iff-undefined, value as C06)
      \o (IF outs.pe.k = "na" THEN <<>> ELSE JudgeOne(e, p, x, "pe", ref, sup, ref, outs.pe, sv))
+     \* a LONG-LIVED late Differential: component_at for one variable first, then at(p).component for every variable
+     \o JudgeOne(e, p, x, "da2", ref, sup, oda, outs.da2, sv)
+     \* EARLY Differential(e, compute_early=True).at(p).component(v): against the reference only
+     \o (IF outs.dae.k = "na" THEN <<>> ELSE JudgeOne(e, p, x, "dae", ref, sup, ref, outs.dae, sv))
      \o (IF dvout.k # "na" /\ Vars(e) \subseteq {x} /\ (x \in Vars(e) \/ Vars(e) = {})
          THEN JudgeOne(e, p, x, "dv", ref, sup, opa, dvout, sv) ELSE <<>>)
      \o SvCheck(ref, sup, sv)
@@ -93,7 +97,7 @@ Init == blk \in 1..NBLK /\ i = 0
 Next == i = 0 /\ i' \in { k \in 1..N : (k % NBLK) + 1 = blk } /\ UNCHANGED blk
 Spec == Init /\ [][Next]_<<blk,i>>
 
-DesignTags == { Tag(d, rt) : d \in {"D:pyerr","D:value","D:class"}, rt \in {"pa","pa2","pe","ld","da","dv"} }
+DesignTags == { Tag(d, rt) : d \in {"D:pyerr","D:value","D:class"}, rt \in {"pa","pa2","pe","ld","da","da2","dae","dv"} }
 \* ONE invariant: judge once, print, check the design-level clause
 Judged == i = 0 \/ LET v == TLCEval(Verdict(Cases[i])) IN
    /\ PrintT(ToJson([i |-> Cases[i].i, v |-> v]))
